@@ -118,7 +118,7 @@ def explore(harness, shard: dict | None = None, *, cpu_budget: float = 30.0, per
                             breakout = True
                     elif res["sample"] is None and sym.reached:
                         space.detach_path()
-                        res["sample"] = {"inputs": sym.witness(), "notes": _plain(sym.notes)}
+                        res["sample"] = {"inputs": sym.witness(), "notes": _plain(sym.realize(sym.notes))}
                 if efilter.user_exc is not None:
                     exc, stack = efilter.user_exc
                     if len(res["errors"]) < 5:
